@@ -92,7 +92,25 @@ func enumerate(thorough bool) (cells []*Cell, nominal int, skipped skipCount) {
 	}
 	modes := []string{"err", "tempbase", "tempnet", "panic", "oorhi", "oorneg"}
 	perss := []string{"always", "once"}
-	poss := []string{"first", "boundary", "last", "eof"}
+	type position struct {
+		name          string
+		shard, target int
+		eof           bool
+	}
+	positions := func(chunk, n int) []position {
+		if !thorough {
+			return []position{{"first", 0, 0, false}, {"boundary", 0, chunk, false}, {"last", 1, n - 1, false}, {"eof", 1, n, true}}
+		}
+		// thorough: every row of every shard, and the end of every shard
+		var out []position
+		for sh := 0; sh < nshard; sh++ {
+			for t := 0; t < n; t++ {
+				out = append(out, position{fmt.Sprintf("s%dr%d", sh, t), sh, t, false})
+			}
+			out = append(out, position{fmt.Sprintf("s%deof", sh), sh, n, true})
+		}
+		return out
+	}
 	canErr := map[string]bool{"reader": true, "writer": true, "scan": true}
 	hasEOF := map[string]bool{"reader": true, "writer": true, "scan": true}
 
@@ -115,7 +133,8 @@ func enumerate(thorough bool) (cells []*Cell, nominal int, skipped skipCount) {
 				for _, cfg := range cfgs {
 					for _, mode := range modes {
 						for _, pers := range perss {
-							for _, pos := range poss {
+							for _, ps := range positions(f.chunk, f.n) {
+								pos := ps.name
 								nominal++
 								switch {
 								case st.site == "combiner" && f.name == "direct":
@@ -127,23 +146,14 @@ func enumerate(thorough bool) (cells []*Cell, nominal int, skipped skipCount) {
 								case (mode == "err" || mode == "tempbase" || mode == "tempnet") && !canErr[st.site]:
 									skipped["the function type of this call site has no error result: it can only panic"]++
 									continue
-								case pos == "eof" && !hasEOF[st.site]:
+								case ps.eof && !hasEOF[st.site]:
 									skipped["a per-row function is not called at end of stream"]++
 									continue
 								}
 								c := &Cell{Config: cfg, Pos: pos, Loc: st.loc}
 								s := &c.Spec
 								s.Family, s.Site, s.Mode, s.Pers, s.Chunk, s.N = f.name, st.site, mode, pers, f.chunk, f.n
-								switch pos {
-								case "first":
-									s.Shard, s.Target = 0, 0
-								case "boundary":
-									s.Shard, s.Target = 0, f.chunk
-								case "last":
-									s.Shard, s.Target = 1, f.n-1
-								case "eof":
-									s.Shard, s.Target = 1, f.n
-								}
+								s.Shard, s.Target = ps.shard, ps.target
 								s.Mask = 1 << uint(s.Shard*f.n+s.Target)
 								if cfg == "vsysmc1" {
 									s.Both = true
@@ -161,13 +171,21 @@ func enumerate(thorough bool) (cells []*Cell, nominal int, skipped skipCount) {
 								}
 								if st.site == "scan" && f.name == "reduce" {
 									// the callbacks scan the reduced slice: all n-2 keys are in shard 0
+									if thorough && (ps.shard != 0 || ps.target == f.n-2 || ps.target == f.n-1) {
+										nominal--
+										continue
+									}
 									s.Shard = 0
-									switch pos {
-									case "last":
+									switch {
+									case pos == "last":
 										s.Target = f.n - 3
-									case "eof":
+									case ps.eof:
 										s.Target = f.n - 2
 									}
+								}
+								if cfg == "vsysmc1" && thorough && ps.shard != 0 {
+									nominal-- // the failure is placed in both shards anyway
+									continue
 								}
 								site := siteName[st.site]
 								if st.loc != "" {
@@ -306,7 +324,7 @@ func crashExcerpt(s string) string {
 }
 
 // runAll runs every cell once, in batches, on `workers` concurrent children.
-func runAll(exe, dir string, cells []*Cell, workers int, seed int64) map[string]outcome {
+func runAll(exe, dir string, cells []*Cell, workers int, seed int64, over func() bool) map[string]outcome {
 	var (
 		mu      sync.Mutex
 		queue   [][]*Cell
@@ -351,7 +369,7 @@ func runAll(exe, dir string, cells []*Cell, workers int, seed int64) map[string]
 				for len(queue) == 0 && pending > 0 {
 					cond.Wait()
 				}
-				if len(queue) == 0 {
+				if len(queue) == 0 || over() {
 					mu.Unlock()
 					cond.Broadcast()
 					return
@@ -498,10 +516,30 @@ func main() {
 		r.NotExhaustive("-only " + *flagOnly)
 	}
 	const workers = 16
-	res := runAll(exe, dir, cells, workers, r.Seed)
+	budget := 8 * time.Minute
+	if r.Thorough() {
+		budget = 25 * time.Minute
+	}
+	res := runAll(exe, dir, cells, workers, r.Seed, func() bool { return r.OverBudget(budget) })
+	if len(res) < len(cells) {
+		r.NotExhaustive(fmt.Sprintf("time budget: %d of %d cells were run", len(res), len(cells)))
+		var ran []*Cell
+		for _, c := range cells {
+			if _, ok := res[c.ID]; ok {
+				ran = append(ran, c)
+			}
+		}
+		cells = ran
+	}
 
-	// first verdicts; every violation is re-run alone (3x for crash/hang, 2x
-	// otherwise, concurrently) and reported only if every re-run agrees.
+	// first verdicts; violating cells are re-run alone (3x for crash/hang, 2x
+	// otherwise, concurrently) and count as confirmed only if every re-run gives
+	// the same verdict. Of the cells with the same signature (the same defect at
+	// other rows / in the other pipeline) the first confirmPerSig are re-run; a
+	// signature is reported iff one of its cells is confirmed.
+	const confirmPerSig = 3
+	perSig := map[string]int{}
+	skippedConfirm := map[string]bool{}
 	type again struct {
 		c *Cell
 		v verdict
@@ -517,6 +555,11 @@ func main() {
 			n := 2
 			if v.class == "driver-crash" || strings.HasPrefix(v.class, "hang") {
 				n = 3
+			}
+			sig := signature(c, v.class)
+			if perSig[sig]++; perSig[sig] > confirmPerSig {
+				skippedConfirm[c.ID] = true
+				continue
 			}
 			redo = append(redo, again{c, v, n})
 		}
@@ -558,25 +601,28 @@ func main() {
 
 	// aggregate
 	var (
-		outcomes   = ev.NewCounter()
-		perConfig  = map[string]map[string]int{}
-		locs       = map[string]int{}
-		fired      int
-		atLoc      int
-		combCells  int
-		maxFired   int64
-		maxFiredID string
-		sigCells   = map[string][]string{}
-		sigFirst   = map[string]outcome{}
-		sigWhat    = map[string]string{}
-		sigOrder   []string
-		slowest    int64
+		outcomes     = ev.NewCounter()
+		perConfig    = map[string]map[string]int{}
+		locs         = map[string]int{}
+		fired        int
+		atLoc        int
+		combCells    int
+		maxFired     int64
+		maxFiredID   string
+		sigCells     = map[string][]string{}
+		sigFirst     = map[string]outcome{}
+		sigWhat      = map[string]string{}
+		sigOrder     []string
+		sigConfirmed = map[string]int{}
+		slowest      int64
 	)
 	for _, c := range cells {
 		o := res[c.ID]
 		v := judge(o)
 		class := v.class
-		if v.viol && !confirmed[c.ID] {
+		if v.viol && skippedConfirm[c.ID] {
+			class = "same-signature-as-confirmed:" + v.class
+		} else if v.viol && !confirmed[c.ID] {
 			class = "unconfirmed:" + v.class
 			r.Note("not reproduced on every re-run, not reported: %s first=%s re-runs=%v", c.ID, v.class, unconfirmed[c.ID])
 		}
@@ -619,7 +665,7 @@ func main() {
 				fmt.Printf("%-72s %-30s %s | %s\n", c.ID, class, o.exit, strings.SplitN(o.stderr, "\n", 2)[0])
 			}
 		}
-		if v.viol && confirmed[c.ID] {
+		if v.viol && (confirmed[c.ID] || skippedConfirm[c.ID]) {
 			sig := signature(c, v.class)
 			if _, ok := sigFirst[sig]; !ok {
 				sigFirst[sig] = o
@@ -627,6 +673,9 @@ func main() {
 				sigOrder = append(sigOrder, sig)
 			}
 			sigCells[sig] = append(sigCells[sig], c.ID)
+			if confirmed[c.ID] {
+				sigConfirmed[sig]++
+			}
 		}
 		if !v.viol {
 			r.Sample(map[string]interface{}{"cell": c.ID, "class": class, "fired": o.obs.Fired, "where": o.obs.Locs, "error": trim(o.obs.ErrText, 160)})
@@ -634,11 +683,16 @@ func main() {
 	}
 	for _, sig := range sigOrder {
 		o := sigFirst[sig]
+		if sigConfirmed[sig] == 0 {
+			r.Note("signature %s: none of the re-run cells was confirmed, not reported", sig)
+			continue
+		}
 		detail := map[string]interface{}{
-			"cells":       sigCells[sig],
-			"first_cell":  o.cell,
-			"replay":      "c06-plain -tier quick -only " + o.cell.ID + " -dump",
-			"how_to_read": "cell id = configuration/pipeline family/call site[@combiner location]/mode/persistence/position",
+			"cells":                    sigCells[sig],
+			"cells_confirmed_by_rerun": sigConfirmed[sig],
+			"first_cell":               o.cell,
+			"replay":                   "c06-plain -tier quick -only " + o.cell.ID + " -dump",
+			"how_to_read":              "cell id = configuration/pipeline family/call site[@combiner location]/mode/persistence/position",
 		}
 		if o.obs != nil {
 			detail["observation"] = o.obs
@@ -674,15 +728,15 @@ func main() {
 		"distinct_nontrivial": fired,
 		"rule": "cells = call site {ReaderFunc, WriterFunc, Map, Filter, Flatmap, Fold, Reduce combiner @ task-local table / shared (per-task or per-machine) combine buffer / consumer-side merge, Repartition fn, Scan callback} x mode {error, temporary (base errors.Temporary), temporary (net-style Temporary()), panic, partition >= n, partition < 0} x {always, once} x position {first row, first row after the vector boundary, last row (of the last shard), at EOF} x pipeline {armed operator last; ... -> Reduce} x configuration {local, verifsystem 1 machine, same + MachineCombiners (+ 2 machines for the consumer merge)" +
 			map[bool]string{true: ", verifsystem 4 one-proc machines", false: ""}[r.Thorough()] + "}; vector size 3 with 7 rows/shard (4 and 9 where a Reduce is present: combining frames need a power of two); 2 shards. A cell is non-trivial iff its user function actually delivered the failure (counted by the function itself) or the process died in it. evaluations = cell executions including confirmation re-runs.",
-		"cells_nominal":                 nominal,
-		"cells_meaningful":              len(cells),
-		"cells_skipped":                 sk,
-		"skipped_by_reason":             skipped,
-		"outcome_classes":               oc,
-		"distinct_outcomes":             outcomes.Distinct(),
-		"outcomes_by_configuration":     perConfig,
-		"fired_locations":               locs,
-		"combiner_cells":                combCells,
+		"cells_nominal":                             nominal,
+		"cells_meaningful":                          len(cells),
+		"cells_skipped":                             sk,
+		"skipped_by_reason":                         skipped,
+		"outcome_classes":                           oc,
+		"distinct_outcomes":                         outcomes.Distinct(),
+		"outcomes_by_configuration":                 perConfig,
+		"fired_locations":                           locs,
+		"combiner_cells":                            combCells,
 		"combiner_cells_fired_at_intended_location": atLoc,
 		"max_failures_delivered_in_one_cell":        maxFired,
 		"max_failures_cell":                         maxFiredID,
